@@ -1281,10 +1281,7 @@ def run(chk):
         "counterexamples); the export itself is safe for all inputs because of the final comparison (written_times_close)",
         "roundtrip_h5: the time array is reproduced only for uniformly sampled series (start + i*delta)"]
     chk.matchers[F19] = f19_shape
-    chk.matchers[F19B] = f19b_shape
     chk.matchers[F30] = f30_shape
-    chk.matchers[F31] = f31_shape
-    chk.matchers[F32] = f32_shape
     rng = chk.rng
     drv = core.Driver()
     root = tempfile.mkdtemp(prefix="qv07c_")
@@ -1302,7 +1299,7 @@ def run(chk):
         shutil.rmtree(root, ignore_errors=True)
     for c in corner_cases():
         run_e2e(chk, c)
-    for _ in range(1600 if chk.quick else 26000):
+    for _ in range(1600 if chk.quick else 22000):
         run_e2e(chk, gen_e2e(rng))
 
 
